@@ -1,0 +1,67 @@
+//go:build verif
+
+package wallet
+
+import (
+	"github.com/elnosh/gonuts/cashu"
+	"github.com/elnosh/gonuts/crypto"
+	"github.com/elnosh/gonuts/wallet/storage"
+)
+
+// Verification hooks. Compiled only with the `verif` build tag; they add
+// accessors for the verification harness and change no behaviour.
+
+// VerifWrapDB replaces the wallet's storage with wrap(current storage).
+func (w *Wallet) VerifWrapDB(wrap func(storage.WalletDB) storage.WalletDB) {
+	w.db = wrap(w.db)
+}
+
+// VerifDB returns the storage currently used by the wallet.
+func (w *Wallet) VerifDB() storage.WalletDB {
+	return w.db
+}
+
+func verifMint(activeId string, activePpk uint, inactive map[string]uint) *walletMint {
+	m := &walletMint{
+		mintURL:         "verif",
+		activeKeyset:    crypto.WalletKeyset{Id: activeId, InputFeePpk: activePpk, Active: true},
+		inactiveKeysets: make(map[string]crypto.WalletKeyset),
+	}
+	for id, ppk := range inactive {
+		m.inactiveKeysets[id] = crypto.WalletKeyset{Id: id, InputFeePpk: ppk}
+	}
+	return m
+}
+
+// VerifSelectProofsToSend exposes selectProofsToSend for a mint described by
+// its active keyset id/fee and its inactive keysets' fees.
+func VerifSelectProofsToSend(
+	proofs cashu.Proofs,
+	amount uint64,
+	activeId string,
+	activePpk uint,
+	inactive map[string]uint,
+	includeFees bool,
+) (cashu.Proofs, error) {
+	return selectProofsToSend(proofs, amount, verifMint(activeId, activePpk, inactive), includeFees)
+}
+
+// VerifFeesForProofs exposes feesForProofs.
+func VerifFeesForProofs(proofs cashu.Proofs, activeId string, activePpk uint, inactive map[string]uint) uint {
+	return feesForProofs(proofs, verifMint(activeId, activePpk, inactive))
+}
+
+// VerifFeesForCount exposes feesForCount.
+func VerifFeesForCount(count int, ppk uint) uint {
+	return feesForCount(count, &crypto.WalletKeyset{InputFeePpk: ppk})
+}
+
+// VerifCalculateBlankOutputs exposes calculateBlankOutputs.
+func VerifCalculateBlankOutputs(feeReserve uint64) int {
+	return calculateBlankOutputs(feeReserve)
+}
+
+// VerifSplitWalletTarget exposes splitWalletTarget.
+func (w *Wallet) VerifSplitWalletTarget(amountToSplit uint64, mint string) []uint64 {
+	return w.splitWalletTarget(amountToSplit, mint)
+}
